@@ -198,7 +198,7 @@ def gen_inject_program(r):
         fields.append(f)
         head.append('%s: %s' % (f, e))
     sigs[name] = fields
-    lines.append('%s(%s) :- %s;' % (name, ', '.join(head), ', '.join(body)))
+    lines.append('%s(%s)%s :- %s;' % (name, ', '.join(head), ' distinct' if r.random() < 0.12 else '', ', '.join(body)))
     k = r.random()
     if k < 0.08:
       lines.append('@NoInject(%s);' % name)
